@@ -162,6 +162,23 @@ class _D(ast.NodeTransformer):
                     r = self.visit_Assign(_loc(ast.Assign(targets=[a], value=b, type_comment=None), node))
                     out.extend(r if isinstance(r, list) else [r])
                 return out
+        # a, b = (E(x, y) for x, y in zip(P, Q))  ->  a = E(P[0], Q[0]); b = E(P[1], Q[1])   (component-wise computation)
+        if isinstance(t, ast.Tuple) and all(isinstance(e, ast.Name) for e in t.elts) and isinstance(v, (ast.GeneratorExp, ast.ListComp)) \
+                and len(v.generators) == 1 and not v.generators[0].ifs and isinstance(v.generators[0].iter, ast.Call) \
+                and isinstance(v.generators[0].iter.func, ast.Name) and v.generators[0].iter.func.id == "zip" and not v.generators[0].iter.keywords \
+                and all(isinstance(a, (ast.Name, ast.Attribute)) for a in v.generators[0].iter.args) \
+                and isinstance(v.generators[0].target, ast.Tuple) and all(isinstance(e, ast.Name) for e in v.generators[0].target.elts) \
+                and len(v.generators[0].target.elts) == len(v.generators[0].iter.args):
+            g = v.generators[0]
+            out = []
+            for i, tgt in enumerate(t.elts):
+                m = {e.id: ast.Subscript(value=copy.deepcopy(a), slice=ast.Constant(value=i), ctx=ast.Load()) for e, a in zip(g.target.elts, g.iter.args)}
+
+                class Sub(ast.NodeTransformer):
+                    def visit_Name(self_, n):
+                        return copy.deepcopy(m[n.id]) if n.id in m and isinstance(n.ctx, ast.Load) else n
+                out.append(_loc(ast.Assign(targets=[tgt], value=Sub().visit(copy.deepcopy(v.elt)), type_comment=None), node))
+            return out
         # lo, hi = sorted((a, b))  ->  lo = min(a, b); hi = max(a, b)
         if isinstance(t, ast.Tuple) and len(t.elts) == 2 and all(isinstance(e, ast.Name) for e in t.elts) and isinstance(v, ast.Call) \
                 and isinstance(v.func, ast.Name) and v.func.id == "sorted" and len(v.args) == 1 and not v.keywords:
